@@ -15,12 +15,14 @@
       derivative by exactly `γ = dist/(dist + 1e-12)`, `1/(1+1e-6) ≤ γ < 1` (`gamma_bounds`);
     * `kgrad_linear_eq`, `kgrad_guard_free`: `Linear` and every tree without a distance-based leaf
       carry no factor at all (γ = 1): `kGrad` is the exact derivative;
-    * `kgrad_add_rule … kgrad_pow_rule`: a sum / product / power node combines its operands'
+    * `kgrad_add_rule … kgrad_pow_rule`: a sum / product / power (base > 0) node combines its operands'
       gradients by the exact sum / product / chain rule (no further factor, γ = 1), so the only
       deviation of `kGrad` from the true gradient is the per-leaf factor γ;
     * `kgrad_close_directional / _partial`: consequently, for EVERY tree, `kGrad` is within
       `1e-6 · devBound` of the true derivative, `devBound` = the sum of the absolute contributions of the
       distance-based leaves — the exact content of "agrees with autodiff / finite differences";
+    * `kgrad_pow_base_nonpos`: the guard `where(base_k > 0, …, 0.0)` of `Pow.k_grad` — a power node whose base
+      value is not positive (float64: underflowed) has gradient exactly `0`, for every exponent;
     * `kgrad_inactive_zero`, `kgrad_finite_coincident`, `kgrad_length`.
 -/
 import MellonProofs.KernelGradCloseLemmas
@@ -251,14 +253,34 @@ theorem kgrad_mulC_rule (l : Cov ℝ) (c : ℝ) (ad : ActiveDims) (x y u : List 
   rw [dot_expand_select ad y u _ hu, dot_map_left (fun lg => lg * c) c (by intro gi; ring)]
   ring
 
-theorem kgrad_pow_rule (l : Cov ℝ) (p : ℝ) (ad : ActiveDims) (x y u : List ℝ) (hu : u.length = y.length) :
+theorem kgrad_pow_rule (l : Cov ℝ) (p : ℝ) (ad : ActiveDims) (x y u : List ℝ) (hu : u.length = y.length)
+    (hb : 0 < l.k (select ad x) (select ad y)) :
     dot ((Cov.pow l p ad).kGrad x y) u
       = p * (l.k (select ad x) (select ad y)) ^ (p - 1)
           * dot (l.kGrad (select ad x) (select ad y)) (select ad u) := by
-  simp only [Cov.kGrad, rpow_real]
+  simp only [Cov.kGrad, rpow_real, hb, if_true]
   rw [dot_expand_select ad y u _ hu,
     dot_map_left (fun bg => p * l.k (select ad x) (select ad y) ^ (p - 1) * bg)
       (p * l.k (select ad x) (select ad y) ^ (p - 1)) (by intro gi; ring)]
+
+/-- **The guard of `Pow.k_grad`** (`where(base_k > 0, …, 0.0)`): where the base kernel value is not
+    positive — over ℝ never for `Positive` operands; in float64 where the base underflowed to `0.0` —
+    the gradient of the power node is exactly `0` in every entry, for EVERY exponent `p` (in particular
+    `p < 1`, where `p · 0^(p−1) · 0` would be `∞ · 0`).  This is the "finite everywhere" clause for powers. -/
+theorem kgrad_pow_base_nonpos (l : Cov ℝ) (p : ℝ) (ad : ActiveDims) (x y : List ℝ)
+    (hb : ¬ 0 < l.k (select ad x) (select ad y)) :
+    ∀ v ∈ (Cov.pow l p ad).kGrad x y, v = 0 := by
+  rw [kGrad_eq_kGradE]; exact kGradE_pow_nonpos_zero _ l p ad x y hb
+
+/-- … and the guarded value is what the chain rule gives whenever the chain rule applies: for a
+    positive base the guard is inactive (`kgrad_pow_rule`), so `kgrad_exact_partial` covers power nodes
+    of every exponent under `Regular` (base > 0). -/
+theorem kgrad_pow_guard_inactive (l : Cov ℝ) (p : ℝ) (ad : ActiveDims) (x y : List ℝ)
+    (hb : 0 < l.k (select ad x) (select ad y)) :
+    (Cov.pow l p ad).kGrad x y
+      = expand ad y.length ((l.kGrad (select ad x) (select ad y)).map fun bg =>
+          p * (l.k (select ad x) (select ad y)) ^ (p - 1) * bg) := by
+  simp only [Cov.kGrad, rpow_real, hb, if_true]
 
 /-- Selection is a linear coordinate map and the scatter-add its transpose:
     `⟨expand ad d G, u⟩ = ⟨G, select ad u⟩` (repeated indices accumulate). -/
@@ -336,6 +358,9 @@ example : (Cov.matern32 (1:ℝ) (.list [0, 0])).isRadial = true := rfl
 example : (Cov.matern32 (1:ℝ) (.list [0, 0])).Regular [1, 2] [3, 4] := trivial
 example : ¬ (Cov.matern32 (1:ℝ) (.idx 0)).Reaches 2 1 := by
   simp [Cov.Reaches, ActiveDims.indices, resolveIdx]
+/-- the guard is reachable over ℝ: a Linear base with a negative value -/
+example : ¬ 0 < (Cov.linear (1:ℝ) .none).k (select .none [1]) (select .none [-1]) := by
+  simp [Cov.k, select, dot]
 example : Cov.GuardFree (.mulC (.linear (2:ℝ) .none) 3 (.idx 0)) := by simp [Cov.GuardFree]
 
 end Mellon.C11
